@@ -155,11 +155,20 @@ def run(prop="C19", tier="quick"):
                              "%s allocates the generator state with size %s but %s frees it with size %s"
                              % (iset["name"], sorted(map(str, a_sizes)), clr["name"], sorted(map(str, f_sizes)))))
         # mpz_t members are cleared
-        ctxt = json.dumps(clr["blocks"])
+        cleared = set()
+        for b in clr["blocks"]:
+            for el in b["elems"]:
+                e = el["e"]
+                if e.get("k") == "call" and e.get("callee") == "__gmpz_clear" and e.get("args"):
+                    a0 = e["args"][0]
+                    while isinstance(a0, dict) and a0.get("k") == "cast":
+                        a0 = a0["e"]
+                    if isinstance(a0, dict) and a0.get("k") == "member" and a0["base"].get("k") == "var":
+                        cleared.add(a0["field"])
         for fld in rec["fields"]:
             if "__mpz_struct" in fld.get("ct", "") and "*" not in fld.get("ct", ""):
                 res["stats"]["mpz_members"] += 1
-                if ('"field": "%s"' % fld["name"]) not in ctxt or "__gmpz_clear" not in ctxt:
+                if fld["name"] not in cleared:
                     F.append(Finding(prop, "R-RANDCOV", clr["file"], clr["line"], clr["name"], "member-not-cleared:%s.%s" % (stype, fld["name"]),
                                      "%s does not mpz_clear member %s of %s" % (clr["name"], fld["name"], stype)))
         res["samples"].append(dict(rule="R-RANDCOV", iset=iset["name"], state_struct=stype, fields=[f["name"] for f in rec["fields"]],
